@@ -167,6 +167,13 @@ fn in_packets(s: &str) -> J {
             v5::Packet::Publish(x) => Some(x.topic_name.to_string()),
             _ => None,
         });
+        let mut body = field(b);
+        body.extend_from_slice(&[3, 0x23, 0, 9]);
+        body.extend_from_slice(b"pl");
+        let v5pubalias = v5_verdict(v5::Packet::decode(&frame(0x30, &body)), s, |p| match p {
+            v5::Packet::Publish(x) => Some(x.topic_name.to_string()),
+            _ => None,
+        });
         let mut body = vec![0, 4, b'M', b'Q', b'T', b'T', 5, 0x04, 0, 10, 0];
         body.extend(field(b"c"));
         body.push(0);
@@ -201,7 +208,7 @@ fn in_packets(s: &str) -> J {
         });
         json!({"v3sub": v3sub, "v3unsub": v3unsub, "v5sub": v5sub, "v5unsub": v5unsub,
                "v3pub": v3pub, "v5pub": v5pub, "v3will": v3will, "v5will": v5will,
-               "v5resp": v5resp, "v5willresp": v5willresp, "v31will": v31will, "v3pub0": v3pub0, "v5pub0": v5pub0,
+               "v5resp": v5resp, "v5willresp": v5willresp, "v31will": v31will, "v3pub0": v3pub0, "v5pub0": v5pub0, "v5pubalias": v5pubalias,
                "acc": J::Object(pacc)})
     });
     match r {
@@ -405,6 +412,24 @@ pub fn record_topic(out: &mut Out, tier: &str, seed: u64) {
             all.push(ctx.replace("{}", &c.to_string()));
         }
     }
+    // share names of 1-, 2-, 3- and 4-byte characters in front of every kind of tail (a byte index computed from a
+    // character width table)
+    for name in ["g", "é", "€", "😀", "𐍈", "\u{10FFFF}", "g😀", "😀g", "😀😀", "é😀€"] {
+        for tail in ["", "/", "/x", "/+", "/#", "/x/", "//", "/x/+", "/😀", "/😀/#"] {
+            all.push(format!("$share/{name}{tail}"));
+        }
+    }
+    // a forbidden character in the LAST block / first block / middle of names of every length up to 130 and of the
+    // lengths a block-wise scanner would treat specially
+    for n in (1usize..=130).chain([255, 256, 257, 511, 512, 1024, 4096, 65504, 65535]) {
+        for bad in ["+", "#", "\0"] {
+            for pos in [0, n / 2, n - 1] {
+                let mut t = "a".repeat(n);
+                t.replace_range(pos..pos + 1, bad);
+                all.push(t);
+            }
+        }
+    }
     // many levels: a counter of separators narrower than the length of the text (255, 256, 257, 258, 300 and 70 000 of them)
     for n in [254usize, 255, 256, 257, 258, 300, 1000, 30000] {
         all.push(format!("$share/g/{}a", "a/".repeat(n)));
@@ -475,6 +500,9 @@ pub fn record_topic(out: &mut Out, tier: &str, seed: u64) {
         "$share/a/b/c", "$share/a/b-", "$share/a/b!", "a-", "a!", "a/", "a0", "a/b-", "a/b/", "a-/b", "$share/$share/x/y",
         "$share/$share/x", "$share/ /x", "$share/a/ ", " ", "!", "$share/a/-", "$share/a-/+", "$share/\t/#", "$share/\u{3000}/+/x",
         "$SHARE/x", "$Share/#", "$SHARE/+/x",
+        // shared filters that differ ONLY in the share name (same length) / only in the filter part
+        "$share/b/b", "$share/ab/+", "$share/é/x", "$share/ab/x", "$share/blue/s/+/t", "$share/gray/s/+/t", "$share/blue/s/+/u",
+        "home/x", "home-2/x", "a.b", "a/b.c", "a/b/c", "a/b-c",
     ];
     pool.push(format!("$share/g/{}a", "a/".repeat(257)));
     pool.push(format!("$share/g/{}a", "a/".repeat(256)));
